@@ -22,6 +22,8 @@ pub fn run(ctx: &Ctx) -> i32 {
     let n_exh = 4 * stride;
     let n_stress = tier.pick(4, 32);
     let n_race = tier.pick(8, 64);
+    let n_real = tier.pick(2, 12);
+    let real_ms = tier.pick(2_500, 15_000);
     let race_rounds = tier.pick(60_000, 400_000);
     let stress_ops = tier.pick(20_000, 200_000);
     let mut summary = runner::run_scenarios(&cfg, move |i, s| {
@@ -31,6 +33,8 @@ pub fn run(ctx: &Ctx) -> i32 {
             super::direct::c04_stress(i, s, stress_ops)
         } else if i < n_exh + n_stress + n_race {
             super::direct::c04_race(i, s, race_rounds)
+        } else if i < n_exh + n_stress + n_race + n_real {
+            super::realnet::scenario(i, s, real_ms, super::realnet::Judge::ChangeLog)
         } else {
             history::scenario(i, s, history::Mode::C04, max_steps)
         }
@@ -52,12 +56,12 @@ pub fn run(ctx: &Ctx) -> i32 {
         tier,
         seed: ctx.seed,
         level: "exploration",
-        rule: "three kinds. (1) direct drive, exhaustive: a stand-alone active-peer set fed with real connections (4 shapes: in+out, in+in, in+out+other peer, in+in+out) and EVERY sequence up to length 6 (thorough 7) of {add each connection once, handler exit of an added connection, disconnect of a peer (once per peer), one subscribe}; after every step listing, len, closed-ness of every connection and the entry's stable id are compared with a reference model (re-implemented from the documented rule), at the end both subscribers' event streams with the model's change log. (2) stress: 8 writer threads x 20k (thorough 200k) random add/exit/disconnect/list/subscribe on one set while 4 subscriber threads run drain-list-drain: the listing must equal a state reached by replaying the events drained so far. (3) races: from a seeded state two operations (add / handler exit / disconnect, with extra weight on 'a replacement racing the exit of the replaced connection') run on two threads released together, 30k (thorough 300k) rounds per scenario; entry, return values and emitted events must equal one of the two sequential orders of the reference model. (4) simnet histories (as C09) plus an adversary opening duplicate connections with one identity; after every step each node's synchronous subscription is drained and snapshot+events must equal peers() exactly, events must alternate per peer, listings have no duplicates; at quiescent points the number of the adversary's un-closed connections to a node must be 1 iff the node lists it, never >1".into(),
+        rule: "three kinds. (1) direct drive, exhaustive: a stand-alone active-peer set fed with real connections (4 shapes: in+out, in+in, in+out+other peer, in+in+out) and EVERY sequence up to length 6 (thorough 7) of {add each connection once, handler exit of an added connection, disconnect of a peer (once per peer), one subscribe}; after every step listing, len, closed-ness of every connection and the entry's stable id are compared with a reference model (re-implemented from the documented rule), at the end both subscribers' event streams with the model's change log. (2) stress: 8 writer threads x 20k (thorough 200k) random add/exit/disconnect/list/subscribe on one set while 4 subscriber threads run drain-list-drain: the listing must equal a state reached by replaying the events drained so far. (3) races: from a seeded state two operations (add / handler exit / disconnect, with extra weight on 'a replacement racing the exit of the replaced connection') run on two threads released together, 30k (thorough 300k) rounds per scenario; entry, return values and emitted events must equal one of the two sequential orders of the reference model. (4) E2: whole Networks on UDP loopback and a 6-worker runtime with fast dial/disconnect churn and RPC load while two subscriber threads per network run drain-list-drain against Network::subscribe()/peers(). (5) simnet histories (as C09) plus an adversary opening duplicate connections with one identity; after every step each node's synchronous subscription is drained and snapshot+events must equal peers() exactly, events must alternate per peer, listings have no duplicates; at quiescent points the number of the adversary's un-closed connections to a node must be 1 iff the node lists it, never >1".into(),
         assumptions: vec!["'at every instant' is sampled after every harness step".into()],
         summary,
         extra,
         exhaustive: None,
         min_signatures: 10,
-        required_counters: vec!["race_rounds", "race_rounds_with_distinguishable_orders", "direct_sequences_run", "direct_ops_checked", "stress_drain_list_drain_samples", "stress_events_replayed", "listing_samples", "events_drained", "lost_peer_events", "adversary_connections_admitted", "adversary_liveness_checks"],
+        required_counters: vec!["realnet_drain_list_drain_samples", "realnet_events", "race_rounds", "race_rounds_with_distinguishable_orders", "direct_sequences_run", "direct_ops_checked", "stress_drain_list_drain_samples", "stress_events_replayed", "listing_samples", "events_drained", "lost_peer_events", "adversary_connections_admitted", "adversary_liveness_checks"],
     })
 }
